@@ -338,6 +338,8 @@ inductive Stmt where
   | setAdd (x : Nat) (e : Expr)                              -- `x.add(e)`
   | setUpdate (x : Nat) (e : Expr)                           -- `x.update(e)`
   | append (x : Nat) (e : Expr)                              -- `x.append(e)`
+  /-- `d.setdefault(k, []).append(v)` written as `x = d.get(k)` / `if x is None: x = d[k] = []` / `x.append(v)` -/
+  | dictAppend (d : Nat) (k v : Expr)
   /-- `x = d.pop(k, dflt)`, dict local `d` -/
   | dictPop (x d : Nat) (k dflt : Expr)
   /-- `x.a = e` for a local `x` that holds an immutable value (in-out parameter of a nested function) -/
@@ -630,6 +632,10 @@ def Stmt.exec {W : Type} (I : Iface W) (cur : Option Exc) (st : St W) : Stmt →
   | .updatePairs x a b it c k v => withList st x fun d => withR st (it.eval I st.w st.env) fun itv =>
       withR st (R.ofOpt itv.toList) fun l => withR st (updPairs I st.w st.env a b c k v l d) fun d' =>
         .norm (st.setVar x d')
+  | .dictAppend d k v => withList st d fun dv => withR st (eval2 I st.w st.env k v) fun p =>
+      if isListVal ((vdGet p.1 dv).getD .nil) then
+        .norm (st.setVar d (vdSet p.1 (vlAppend p.2 ((vdGet p.1 dv).getD .nil)) dv))
+      else .stuck
   | .dictPop x d k dflt => withList st d fun dv => withR st (eval2 I st.w st.env k dflt) fun p =>
       .norm ((st.setVar x ((vdGet p.1 dv).getD p.2)).setVar d (vdDel p.1 dv))
   | .setAttrVar x path e => withR st (R.ofOpt (st.env x)) fun o => withR st (e.eval I st.w st.env) fun v =>
